@@ -1632,6 +1632,9 @@ def run(chk):
     import rules.C02 as c02
     c02.run(core.Only(chk, {"C02.affine", "C02.inv", "C02.io", "C02.wire", "C02.offset", "C02.len"}))
 
+    from verif import fallthrough
+    fallthrough.run(chk, "C05", floor=45)
+
     chk.assumptions += [
         "slots are joined on the array enum and enumerator (XGRP: on the integer of the key->index tables)",
         "mnemonic->measure and slot-name->mnemonic grammars frozen in rules/C05.py (documented Eclipse naming)",
